@@ -1,0 +1,10 @@
+//go:build verif
+// +build verif
+
+package gzip
+
+import "github.com/intel/fastgo/compress/flate"
+
+// VerifCompressor exposes the lazily created inner flate Writer (nil before
+// the first Write/Flush/Close) so the harness can install and check red zones.
+func VerifCompressor(z *Writer) *flate.Writer { return z.compressor }
